@@ -343,7 +343,12 @@ def run_property(prop, tier, seed):
         r2.is_control = True
         PROPS[prop](f2, r2, "control")
 
-    rep.extra["positive_controls"] = controls.run_for(prop, facts, runner)
+    if rep.violations:
+        # the tree itself is in violation: the controls (which mutate today's facts and expect the rule to
+        # start firing) are not meaningful and must not turn a violation report into a broken check
+        rep.extra["positive_controls"] = {"status": "not run: the tree already violates the property"}
+    else:
+        rep.extra["positive_controls"] = controls.run_for(prop, facts, runner)
     cfgs = ["default"]
     if tier == "thorough":
         import thorough
